@@ -242,13 +242,30 @@ func c2Entry(c *Ctx) {
 			sites = append(sites, s)
 		case "addFields":
 			sites = append(sites, emitSite{name: "fields", instr: cl, want: []string{}})
-			c.Check(Desc(args[0]) == "clone("+PN(fn.Params[0])+")" && Strip(args[1]) == ssa.Value(fn.Params[2]), "R2.1", name, "payload/fields", cl.Pos(), "call-site fields are added to the per-call clone")
+			// (inside a helper: what the helper's parameters are bound to at its call in EncodeEntry)
+			at := func(v ssa.Value) ssa.Value {
+				p, isP := Strip(v).(*ssa.Parameter)
+				if !isP || p.Parent() == fn {
+					return v
+				}
+				for _, s := range Calls(fn) {
+					if StaticCallee(s) == p.Parent() {
+						for i, q := range p.Parent().Params {
+							if q == p && i < len(Args(s)) {
+								return Args(s)[i]
+							}
+						}
+					}
+				}
+				return v
+			}
+			c.Check((Desc(at(args[0])) == "clone("+PN(fn.Params[0])+")" || bd(args[0]) == "clone("+PN(fn.Params[0])+")") && (Strip(at(args[1])) == ssa.Value(fn.Params[2]) || bd(args[1]) == PN(fn.Params[2])), "R2.1", name, "payload/fields", cl.Pos(), "call-site fields are added to the per-call clone")
 		case "closeOpenNamespaces":
 			if cl.Parent() == fn || Eligible(cl.Parent()) {
 				sites = append(sites, emitSite{name: "close-namespaces", instr: cl, want: []string{}})
 			}
 		case "Write", "AppendBytes":
-			if len(args) == 2 && Desc(args[1]) == "Bytes("+PN(fn.Params[0])+".buf)" {
+			if len(args) == 2 && (Desc(args[1]) == "Bytes("+PN(fn.Params[0])+".buf)" || cl.Parent() != fn && bd(args[1]) == "Bytes("+PN(fn.Params[0])+".buf)") {
 				sites = append(sites, emitSite{name: "context", instr: cl, want: []string{"Len(" + PN(fn.Params[0]) + ".buf) > 0"}})
 			}
 		}
@@ -271,6 +288,9 @@ func c2Entry(c *Ctx) {
 		Bound(func() {
 			for _, a := range AtomStrings(Guards(s.instr)) {
 				a = strings.ReplaceAll(a, "len(Bytes("+PN(fn.Params[0])+".buf))", "Len("+PN(fn.Params[0])+".buf)")
+				if a == "Len("+PN(fn.Params[0])+".buf) != 0" {
+					a = "Len(" + PN(fn.Params[0]) + ".buf) > 0" // a length is never negative
+				}
 				got = append(got, normCfg(a))
 			}
 		})
@@ -288,8 +308,14 @@ func c2Entry(c *Ctx) {
 		is := func(x ssa.Instruction) func(ssa.Instruction) bool {
 			return func(i ssa.Instruction) bool { return i == x }
 		}
-		fwd := ExistsPath(fn, a.instr, is(b.instr), nil)
-		back := ExistsPath(fn, b.instr, is(a.instr), nil)
+		ai, bi := liftTo(fn, a.instr), liftTo(fn, b.instr)
+		fwd := ExistsPath(fn, ai, is(bi), nil)
+		back := ExistsPath(fn, bi, is(ai), nil)
+		if ai == bi {
+			// both inside one helper: ordered there
+			fwd = ExistsPath(a.instr.Parent(), a.instr, is(b.instr), nil)
+			back = ExistsPath(a.instr.Parent(), b.instr, is(a.instr), nil)
+		}
 		c.Check(fwd && !back, "R2.1", name, "order/"+order[i]+"≺"+order[i+1], a.instr.Pos(), "%s is emitted before %s on every path that emits both", order[i], order[i+1])
 	}
 }
@@ -1149,4 +1175,22 @@ func c2NumericEncoders(c *Ctx, rule string) {
 	if n < 4 {
 		c.Bad(rule, "numeric encoders", "count", token.NoPos, "expected the built-in numeric time/duration encoders, decided %d", n)
 	}
+}
+
+// liftTo: the instruction of fn that stands for in - in itself, or the (single) call in fn of the helper in sits in.
+func liftTo(fn *ssa.Function, in ssa.Instruction) ssa.Instruction {
+	for k := 0; k < 4 && in.Parent() != fn; k++ {
+		h := in.Parent()
+		var site ssa.Instruction
+		n := 0
+		for _, s := range sitesOf(h) {
+			n++
+			site = s
+		}
+		if n != 1 || site == nil {
+			return in
+		}
+		in = site
+	}
+	return in
 }
